@@ -1,5 +1,7 @@
 """Hypothesis drivers: collect-then-shrink exploration with pinned root-cause keys."""
+import os
 import time
+import warnings
 import zlib
 
 import hypothesis
@@ -33,7 +35,9 @@ def run_judge(judge, case, rec):
     """Run one case; unexpected exceptions with a library frame become violations."""
     rec.begin()
     try:
-        judge(case, rec)
+        with warnings.catch_warnings():
+            warnings.simplefilter("ignore")
+            judge(case, rec)
     except (Violation, HarnessError, KeyboardInterrupt, SystemExit, MemoryError):
         raise
     except hypothesis.errors.HypothesisException:
@@ -45,8 +49,8 @@ def run_judge(judge, case, rec):
         rec.violation("crash/%s" % b, case, "%s: %s" % (type(e).__name__, short(e, 300)))
 
 
-def explore(strategy, judge, rec, *, max_examples, seed, shrink=True, max_keys=4, wall_s=None,
-            shrink_examples=400):
+def explore(strategy, judge, rec, *, max_examples, seed, shrink=True, max_keys=3, wall_s=None,
+            shrink_wall_s=None):
     """Phase 1: run `max_examples` generated cases through judge(case, rec) without raising.
     Phase 2: for each new violation key, re-run the same seeded generator raising only for
     that key so Hypothesis shrinks it; the minimal case replaces the first one recorded.
@@ -70,14 +74,19 @@ def explore(strategy, judge, rec, *, max_examples, seed, shrink=True, max_keys=4
 
     if not shrink:
         return
+    if shrink_wall_s is None:
+        shrink_wall_s = 25.0 if os.environ.get("VERIF_TIER", "quick") == "quick" else 150.0
     for key in list(rec.failures)[:max_keys]:
         last = {}
         scratch = Recorder(rec.prop_id, rec.known)
+        ts = time.time()
 
         @hseed(seed)
         @_settings(max(max_examples, 1), True)
         @given(strategy)
         def pinned(case):
+            if "case" in last and time.time() - ts > shrink_wall_s:
+                return  # budget used up: let the shrinker wind down; the smallest case seen so far is kept
             scratch.failures.clear()
             run_judge(judge, case, scratch)
             if key in scratch.failures:
